@@ -70,7 +70,7 @@ theorem inv_set_new {m : OMap K V} (I : Inv norm hash m) (nk : K) (hPrev : Optio
 theorem inv_set {m : OMap K V} (I : Inv norm hash m) (hnorm : ∀ k, norm (norm k) = norm k) (k : K) (v : Option V) :
     Inv norm hash (set norm hash m k v) := by
   obtain ⟨h1, h2, h3⟩ := lookup_spec norm hash I k
-  unfold set
+  unfold set setWith
   generalize lookup norm hash m k = r at h1 h2 h3
   obtain ⟨h, e, hPrev⟩ := r
   simp only at h1 h2 h3
@@ -141,7 +141,7 @@ theorem inv_kill {m : OMap K V} (I : Inv norm hash m) (e : Nat) (hPrev : Option 
 theorem inv_remove {m : OMap K V} (I : Inv norm hash m) (k : K) :
     Inv norm hash (remove norm hash m k).1 := by
   obtain ⟨h1, h2, h3⟩ := lookup_spec norm hash I k
-  unfold remove
+  unfold remove removeWith
   generalize lookup norm hash m k = r at h1 h2 h3
   obtain ⟨h, e, hPrev⟩ := r
   simp only at h1 h2 h3
